@@ -33,7 +33,7 @@ import (
 //	cfg <tracing> <metrics> <recexc> <tc|tcb|none> <always|never|parent>
 //	start <meta> [<method> <mtype> <rid> <server>]   OnDispatchStart; meta = nil | empty | x<key>:x<val>,...; the rest of the
 //	                              DispatchInfo varies freely (the model does not get it: it must not matter)
-//	end <k> <stats 0/1> <err 0|1|2> [<http> <cancelled>]   OnDispatchEnd of dispatch k with its own token (1 = plain error, 2 = *RpcError)
+//	end <k> <stats 0/1> <err 0|1|2> [<http> <cancelled>]   OnDispatchEnd of dispatch k with its own token (1 = plain error, 2 = *RpcError, 3 = *RpcError with empty Type, 4 = wrapped empty *RpcError, 5 = empty *RpcError)
 //	endnil <k> <stats> <err>      OnDispatchEnd with a foreign (nil) token
 
 func init() {
@@ -199,7 +199,7 @@ func c43Gen(g *Gen) {
 			}
 			j := r.Intn(len(open))
 			k := open[j]
-			stats, err := r.Intn(2), Pick(r, []int{0, 0, 1, 2})
+			stats, err := r.Intn(2), Pick(r, []int{0, 0, 0, 1, 2, 3, 4, 5})
 			if r.Chance(6) {
 				lines = append(lines, fmt.Sprintf("endnil %d %d %d", k, stats, err))
 				continue
@@ -208,7 +208,7 @@ func c43Gen(g *Gen) {
 			open = append(open[:j], open[j+1:]...)
 			finished = append(finished, k)
 			if r.Chance(5) {
-				lines = append(lines, fmt.Sprintf("end %d %d %d", Pick(r, finished), r.Intn(2), r.Intn(3)))
+				lines = append(lines, fmt.Sprintf("end %d %d %d", Pick(r, finished), r.Intn(2), r.Intn(6)))
 			}
 			if r.Chance(3) {
 				lines = append(lines, fmt.Sprintf("end %d 0 0", started+r.Range(0, 3)))
@@ -625,6 +625,12 @@ func (e *c43Env) end(l string, foreign bool, k int, hasStats bool, errTok string
 		err = errors.New("boom")
 	case "2":
 		err = &vgirpc.RpcError{Type: "ValueError", Message: "bad value"}
+	case "3": // an *RpcError whose wire type is empty is still a failed call
+		err = &vgirpc.RpcError{Message: "untyped failure"}
+	case "4": // a wrapped *RpcError, and one with neither type nor message
+		err = fmt.Errorf("wrapped: %w", &vgirpc.RpcError{})
+	case "5":
+		err = &vgirpc.RpcError{}
 	}
 	var stats *vgirpc.CallStatistics
 	if hasStats {
